@@ -35,16 +35,27 @@ ASSUMPTIONS = ['indentwidth is an integer (0-8 in the monitor domain); programs 
                'interior lines of multi-line block comments and long strings are token content, not layout: re-indentations leave them alone',
                'blank lines before the first line of the file are not "separating lines" (the output may start with up to two)']
 CLAIM = dict(
-    text=("Theorems of Properties/C10.v (Coq, closed under the global context), all about fmt_run, the model of "
-          "LuaFormatterWriter._get_code_for_spaces' re.sub pipeline (14 substitutions, regex sources / guards / replacement "
-          "expressions and the whole function text regenerated from lua.py and pinned), for runs of every length: "
-          "see notes/C10.md for the list. Tie: exhaustive short-run correspondence of the extracted model with the real "
-          "method, run-by-run correspondence inside real luafmt runs on generated programs, and the extracted instance "
-          "predicate holds_C10 (reference reader Spec/FmtShape.v: lines, code tokens, block/bracket depth) on real luafmt "
-          "output: re-indentation invariance, idempotence and the four shape clauses."),
-    note=("Two defects found and fixed in the worker's picotool clone (fix: commits): an indented white-space-only line "
-          "(not idempotent) before a token that follows an empty line; `//` comment lines kept their input indentation. "
-          "Whole-writer statements are observed, not proved (PARTIAL)."),
+    text=("Eight theorems in Properties/C10.v (Coq, closed under the global context) about fmt_run, the model of the 14-step re.sub "
+          "pipeline of LuaFormatterWriter._get_code_for_spaces, for white-space/comment runs of EVERY length, every indent width and "
+          "depth, at the start / middle / end of the file: C10_run_canonical_form (exact line-by-line form of the output), "
+          "C10_run_depends_on_norm (runs equal modulo blanks at line edges are formatted identically: re-indentation invariance "
+          "of a run), C10_run_indent (the token after the run sits at exactly indentwidth x depth spaces), "
+          "C10_run_no_trailing_blank, C10_run_blank_lines (never three line feeds in a row), C10_run_end_of_file, "
+          "C10_run_keeps_comment_text (only white space moves), C10_run_idempotent_partial (formatting a formatted run changes "
+          "nothing, for runs followed by a token). Regex sources, guards, replacement expressions, order, and the whole function text "
+          "are regenerated from lua.py on every run and pinned. Tie: the extracted model equals the real method on ALL runs of length "
+          "<= 5 (thorough 6) over {space,tab,\\n,\\r,-,/,a} x 4 positions x 3 (width,depth), on random long runs, and on every "
+          "_get_code_for_spaces call made inside real luafmt runs on generated programs; the extracted holds_C10 (reference reader "
+          "Spec/FmtShape.v: lines, code tokens, block/bracket depth) is evaluated on real luafmt output for program x re-indentations x "
+          "widths 0-8: outputs equal, fmt(fmt)=fmt, indentation = width x depth on every code line, no trailing white space, no "
+          "double blank line, no blank line at the end."),
+    note=("PARTIAL: the whole-program clauses (indentation = width x syntactic depth, re-indentation invariance and idempotence "
+          "of whole programs) are OBSERVED by the extracted monitor on real output, not proved: they need the model of the "
+          "LuaASTEchoWriter walk (worker parser); run-level idempotence is proved except for the run that ends the file. Two genuine "
+          "defects found by this check were fixed in picotool (fix: commits, findings/known_C10.json): white-space-only line / "
+          "non-idempotence after an empty line inside a block; `//` comment lines kept their input indentation. Trusted: Coq "
+          "kernel+VM, the hand-written regex scanners (pinned to the regenerated sources; compared exhaustively with Python re on "
+          "short runs), ExtrOcamlBasic extraction, OCaml glue, the reference reader Spec/FmtShape.v, the program/layout generator."),
     technique='Coq proof about hand-written regex scanners pinned to regenerated sources + extracted-model correspondence + extracted monitor',
     design_ref='8 C10')
 
@@ -251,7 +262,7 @@ def generate(tier, rng):
     nr = 3000 if tier == 'quick' else 60000
     for i in range(0, nr, 500):
         yield {'kind': 'runs-random', 'runs': [_rand_run(rng).hex() for _ in range(500)]}
-    nprog, nlay = (300, 4) if tier == 'quick' else (4000, 8)
+    nprog, nlay = (300, 4) if tier == 'quick' else (3000, 8)
     for i in range(nprog):
         yield prog_case(rng, tier, extended=(i % 4 == 3), nlay=nlay)
 
